@@ -154,6 +154,11 @@ let () =
              incr l2checks; bump "op:seekl";
              if m <> impl then begin incr mism; bad := true;
                emit (Printf.sprintf "MISMATCH\t%s\t%d\tseekl %s\timpl=%s\tl2=%s" !seq !idx lo impl m) end
+         | ["rangel"; rv; lo; hi] ->
+             let m = "ks:" ^ String.concat "," (List.map enc_bytes (range_leaves !l2 (rv = "1") (dec_bytes lo) (dec_bytes hi))) in
+             incr l2checks; bump "op:rangel";
+             if m <> impl then begin incr mism; bad := true;
+               emit (Printf.sprintf "MISMATCH\t%s\t%d\trangel %s %s %s\timpl=%s\tl2=%s" !seq !idx rv lo hi impl m) end
          | ["bopen"; rv; lo; hi] ->
              (* BatchedUse.v: a batched snapshot iterator kept across operations *)
              let m = if !s1.stages1 = [] then "nostage"
